@@ -388,6 +388,9 @@ class FFDirector(SectionLineParser):
         context = self.get_context(context_type)
         interaction_name = self.section[-1]
         delete = False
+        if interaction_name.startswith('!'):
+            interaction_name = interaction_name[1:]
+            delete = True
         tokens = collections.deque(_tokenize(line))
         if tokens[0] == '#meta':
             _parse_meta(
